@@ -104,7 +104,7 @@ fn parse_ignore(parser: &mut Parser, recovery: TokenSet) -> AstKind {
 
 fn gpos_cursive(parser: &mut Parser, recovery: TokenSet) {
     assert!(parser.eat(Kind::CursiveKw));
-    glyph::eat_glyph_or_glyph_class(parser, recovery.union(Kind::LAngle.into()));
+    glyph::expect_glyph_or_glyph_class(parser, recovery.union(Kind::LAngle.into()));
     metrics::anchor(parser, recovery.union(Kind::LAngle.into()));
     metrics::anchor(parser, recovery);
     parser.expect_semi();
@@ -122,7 +122,7 @@ fn gpos_mark_to_base(parser: &mut Parser, recovery: TokenSet) {
 }
 
 fn gpos_mark_to_(parser: &mut Parser, recovery: TokenSet) {
-    glyph::eat_glyph_or_glyph_class(
+    glyph::expect_glyph_or_glyph_class(
         parser,
         recovery.union(TokenSet::new(&[Kind::LAngle, Kind::AnchorKw])),
     );
@@ -133,7 +133,7 @@ fn gpos_mark_to_(parser: &mut Parser, recovery: TokenSet) {
 fn gpos_ligature(parser: &mut Parser, recovery: TokenSet) {
     assert!(parser.nth_raw(0) == b"ligature");
     parser.eat_remap(Kind::Ident, AstKind::LigatureKw);
-    glyph::eat_glyph_or_glyph_class(
+    glyph::expect_glyph_or_glyph_class(
         parser,
         recovery.union(TokenSet::new(&[Kind::LAngle, Kind::AnchorKw])),
     );
